@@ -31,6 +31,7 @@ import (
 	"github.com/bufbuild/buf/private/pkg/storage/storagearchive"
 	"github.com/bufbuild/buf/private/pkg/storage/storagemem"
 	"github.com/bufbuild/buf/private/pkg/storage/storageos"
+	"github.com/bufbuild/buf/private/pkg/thread"
 	"github.com/bufbuild/buf/private/pkg/verifhook"
 	"github.com/bufbuild/verifharness/internal/reg"
 	"github.com/klauspost/compress/zip"
@@ -344,6 +345,8 @@ func (o onlyReader) Read(p []byte) (int, error) { return o.r.Read(p) }
 type replayInput struct {
 	Cases   []Case `json:"cases"`
 	Corrupt bool   `json:"corrupt"`
+	// Parallelism > 0: thread.Parallelism for this run (only the operations built on thread.Parallelize are replayed)
+	Parallelism int `json:"parallelism"`
 }
 
 func runReplay(in []byte) (*reg.Result, error) {
@@ -354,6 +357,10 @@ func runReplay(in []byte) (*reg.Result, error) {
 	res := &reg.Result{}
 	ctx := context.Background()
 	work := reg.WorkDir()
+	if inp.Parallelism > 0 {
+		thread.SetParallelism(inp.Parallelism)
+		defer thread.SetParallelism(16)
+	}
 	const workers = 16
 	var wg sync.WaitGroup
 	var emu sync.Mutex
@@ -374,6 +381,12 @@ func runReplay(in []byte) (*reg.Result, error) {
 				}
 				n := len(c.Init)
 				ops := opsFor(c)
+				if inp.Parallelism > 0 {
+					ops = nil
+					if c.Mode == "all" {
+						ops = []string{"copy"}
+					}
+				}
 				if inp.Corrupt {
 					// negative control: an operation that swallows the error (the oracle must object)
 					ops = []string{"neg-swallow"}
@@ -441,6 +454,9 @@ func runReplay(in []byte) (*reg.Result, error) {
 					}
 					caseInfo := map[string]any{"op": op, "case": c, "got_ret": ret, "got_dest": got, "got_count": cnt, "err": fmt.Sprint(opErr)}
 					sig := fmt.Sprintf("%s/%s/atomic=%v/plan=%s", op, c.Kind, c.Atomic, c.planKey())
+					if inp.Parallelism > 0 {
+						sig += fmt.Sprintf("/parallelism=%d", inp.Parallelism)
+					}
 					if errKind != "plain" {
 						sig += "/error=" + errKind
 						caseInfo["error_identity"] = errKind
